@@ -117,6 +117,8 @@ var (
 	c06WebPats = []string{"||e.org^", "||e.org/", "||e.org/ad", "/ad/"}
 	c06SrcPats = []string{"||site.com^", "||site.com/", "||site.com/page"}
 	c06DNSPats = []string{"||e.org^", "||e.org", "e.org", `/e\.org/`}
+	// referrer patterns covering the referrer's path, in lower and in mixed case
+	c06LandPats = []string{"||site.com/landing", "||Site.com/Landing"}
 )
 
 func c06Parse(ts []string) (out []*rules.NetworkRule) {
@@ -226,7 +228,7 @@ func c06Multiset(r *rng, pool []string, maxN int) (ts []string) {
 }
 
 // c06PatFamilies: sets of patterns that all match the request of their scenarios.
-var c06PatFamilies = [][]string{c06WebPats, c06SrcPats, c06DNSPats}
+var c06PatFamilies = [][]string{c06WebPats, c06SrcPats, c06DNSPats, c06LandPats}
 
 // c06SwapPattern returns rule text t over another pattern of the family its pattern belongs to (t itself if the
 // pattern is unknown or the result is not a valid rule).
@@ -484,12 +486,12 @@ func c06RunScenario(r *rng, w *bufio.Writer, sc c06Scenario, perms int, sel bool
 				return c08Class(got)
 			})
 			if cls != "PANIC" {
-				fmt.Fprintf(w, "c06.result %s %s = %s ## Engine.MatchRequest over lists [%s]: rules [%s] source [%s]\n", c06Enc(rs), c06Enc(src), cls,
-					lists, c06Texts(rs), c06Texts(src))
-				fmt.Fprintf(w, "c06.result %s %s = %s ## Engine.MatchRequest %s client=%q over lists [%s] against ALL matching rules of the lists (linear scan): rules [%s] source [%s]%s\n",
-					c06Enc(lin), c06Enc(linSrc), cls, sc.url, sc.client, lists, c06Texts(lin), c06Texts(linSrc), sc.note)
+				fmt.Fprintf(w, "c06.result %s %s = %s ## Engine.MatchRequest(url=%q, referrer=%q, script) over lists [%s]: rules [%s] source [%s]\n", c06Enc(rs), c06Enc(src), cls,
+					sc.url, sc.src, lists, c06Texts(rs), c06Texts(src))
+				fmt.Fprintf(w, "c06.result %s %s = %s ## Engine.MatchRequest(url=%q, referrer=%q, script) client=%q over lists [%s] against ALL matching rules of the lists (linear scan): rules [%s] source [%s]%s\n",
+					c06Enc(lin), c06Enc(linSrc), cls, sc.url, sc.src, sc.client, lists, c06Texts(lin), c06Texts(linSrc), sc.note)
 			} else {
-				fmt.Fprintf(w, "assert c06.enginepanic %s = F ## Engine.MatchRequest panicked over [%s]\n", c06PartsWire(parts), lists)
+				fmt.Fprintf(w, "assert c06.enginepanic %s %s %s = F ## Engine.MatchRequest(url=%q, referrer=%q) panicked over [%s]\n", c06PartsWire(parts), wb(sc.url), wb(sc.src), sc.url, sc.src, lists)
 			}
 			// NetworkEngine.Match: the verdict over the matching rules alone (no referrer rules)
 			var ngot *rules.NetworkRule
@@ -502,9 +504,9 @@ func c06RunScenario(r *rng, w *bufio.Writer, sc c06Scenario, perms int, sel bool
 
 				return c08Class(nr)
 			})
-			fmt.Fprintf(w, "c06.result %s () = %s ## NetworkEngine.Match over lists [%s]: rules [%s]\n", c06Enc(rs), ncls, lists, c06Texts(rs))
-			fmt.Fprintf(w, "c06.result %s () = %s ## NetworkEngine.Match %s client=%q over lists [%s] against ALL matching rules of the lists (linear scan): rules [%s]%s\n",
-				c06Enc(lin), ncls, sc.url, sc.client, lists, c06Texts(lin), sc.note)
+			fmt.Fprintf(w, "c06.result %s () = %s ## NetworkEngine.Match(url=%q, referrer=%q, script) over lists [%s]: rules [%s]\n", c06Enc(rs), ncls, sc.url, sc.src, lists, c06Texts(rs))
+			fmt.Fprintf(w, "c06.result %s () = %s ## NetworkEngine.Match(url=%q, referrer=%q, script) client=%q over lists [%s] against ALL matching rules of the lists (linear scan): rules [%s]%s\n",
+				c06Enc(lin), ncls, sc.url, sc.src, sc.client, lists, c06Texts(lin), sc.note)
 			classes = append(classes, cls)
 			picked = append(picked, got)
 			if sel && cls != "PANIC" {
@@ -555,11 +557,11 @@ func c06RunScenario(r *rng, w *bufio.Writer, sc c06Scenario, perms int, sel bool
 			ok = false
 		}
 	}
-	name, what := "c06.engineperm", "Engine.MatchRequest"
+	name, what := "c06.engineperm", fmt.Sprintf("Engine.MatchRequest(url=%q, referrer=%q)", sc.url, sc.src)
 	if !sc.web {
 		name, what = "c06.dnsengineperm", "DNSEngine"
 	}
-	fmt.Fprintf(w, "assert %s %s %s = %s ## %s classes of %d permutations/splits %v: [%s]%s\n", name, wstrs(ts), wb(sc.url+sc.host+"|"+sc.client), wbool(ok), what, perms, classes,
+	fmt.Fprintf(w, "assert %s %s %s = %s ## %s classes of %d permutations/splits %v: [%s]%s\n", name, wstrs(ts), wb(sc.url+sc.host+"|"+sc.src+"|"+sc.client), wbool(ok), what, perms, classes,
 		strings.Join(ts, "  ;  "), sc.note)
 	if sel {
 		for i := range picked {
@@ -568,7 +570,7 @@ func c06RunScenario(r *rng, w *bufio.Writer, sc c06Scenario, perms int, sel bool
 			}
 		}
 		fmt.Fprintf(w, "assert c07.engsel %s %s = %s ## %s: the rule selected for every storage order is tied with the selection over ALL matching rules and with the other orders: [%s]%s %s\n",
-			wstrs(ts), wb(sc.url+sc.host+"|"+sc.client), wbool(selOK), what, strings.Join(ts, "  ;  "), sc.note, selWhy)
+			wstrs(ts), wb(sc.url+sc.host+"|"+sc.src+"|"+sc.client), wbool(selOK), what, strings.Join(ts, "  ;  "), sc.note, selWhy)
 	}
 }
 
@@ -592,22 +594,37 @@ func c06StdInit() {
 		c06StdR = c06RequestPool(c06PoolOver(false, c06WebPats...))
 		c06StdS = c06PoolOver(false, c06SrcPats...)
 		c06StdD = c06PoolOver(true, c06DNSPats...)
+		// referrer-level exceptions whose pattern (hence lookup shortcut) covers the referrer's PATH, as written in
+		// lower and in mixed case; the referrer URL itself comes in mixed case too (host and path): the engine must
+		// find the exception through the lower-cased referrer URL
+		c06StdSPath = c06Pool(c06LandPats[0], false)
+		c06StdSPathMixed = c06Pool(c06LandPats[1], false)
 	})
 }
 
 func c06StdScenario(r *rng, web bool) c06Scenario {
 	c06StdInit()
 	if web {
-		return c06Scenario{web: true, url: "http://e.org/ad.js", src: "http://site.com/page",
-			ts: append(c06Multiset(r, c06StdR, 6), c06Multiset(r, c06StdS, 3)...)}
+		sc := c06Scenario{web: true, url: "http://e.org/ad.js", src: "http://site.com/page"}
+		sp := c06StdS
+		if r.chance(1, 2) {
+			sc.url = pick(r, []string{"http://e.org/ad.js", "http://E.org/Ad.js", "HTTP://E.ORG/AD.JS", "http://e.Org/ad.js"})
+			sc.src = pick(r, []string{"http://site.com/Landing/page.html", "http://SITE.com/page", "https://Site.Com/Landing/Page.html",
+				"http://site.com/landing/page.html", "http://sitE.com/LANDING", "HTTP://SITE.COM/Page", "http://site.Com/page"})
+			sp = pick(r, [][]string{c06StdS, c06StdSPath, c06StdSPathMixed})
+		}
+		sc.ts = append(c06Multiset(r, c06StdR, 6), c06Multiset(r, sp, 3)...)
+
+		return sc
 	}
 
 	return c06Scenario{host: "e.org", ts: c06Multiset(r, c06StdD, 6)}
 }
 
 var (
-	c06StdOnce                sync.Once
-	c06StdR, c06StdS, c06StdD []string
+	c06StdOnce                    sync.Once
+	c06StdR, c06StdS, c06StdD     []string
+	c06StdSPath, c06StdSPathMixed []string
 )
 
 // genC06Engine: the multisets through the real engines, in several permutations and splits into lists.  Each engine
